@@ -4,9 +4,12 @@ from xvlib import log
 from props.common import *
 import props.reclcommon as rc
 
-LEVEL = 'exploration'
+PROPERTY_FILES = ['Properties_C01_ebr', 'Properties_C01_hp']
+THEOREM_NOTES = {
+    'scope': 'the theorems are about a step-level model of epoch_based<> (generic_epoch_based with its default traits: critical-region entry/exit, global epoch update scanning the thread block list, three retire lists, orphan hand-over at thread exit and adoption, guard_ptr acquire/reset/reclaim) driven by the generic client of harness/h_recl.cpp, for any number of threads, cells, guard slots, programs and schedules: a guarded node is never freed and no dereference hits a destroyed node (C01), the epoch window argument, a retired node is in exactly one place and freed at most once also across thread exit (C02), and seven solo flush operations free everything at quiescence. Tied to the code by trace correspondence (harness/h_ebr.cpp). and of hazard_pointer<static_strategy<3>> (record list, slot free list, acquire with publish + fence + re-validation, retire, scan with adoption of abandoned nodes, thread exit): a node protected by a validated guard is in a hazard slot and never freed, exactly-once bookkeeping across thread exit, and (partial: from the start of the scan) the flush frees everything at quiescence; tied by trace correspondence (harness/h_hp.cpp). acquire_if_equal, guard copies / moves, the dynamic strategy and the other reclaimers (hazard_eras, QSBR, NEBR/DEBRA and the other generic_epoch_based configurations, stamp_it, LFRC) are covered by the search only',
+}
 def harnesses(tier):
-    return rc.harnesses(tier)
+    return rc.harnesses(tier) + rc.MODEL_HARNESSES
 HARNESSES = harnesses('quick')
 ASSUMPTIONS = [
     'SC interleavings only; census at the quiescent end of every history after a public-API flush (unlink+retire everything, then 40 rounds of region enter/leave and retire on a fresh thread): every node destroyed exactly once, by the deleter instance passed for it (LFRC: std::default_delete by design)',
@@ -21,6 +24,7 @@ def run(ctx):
     rng, tier = ctx['rng'], ctx['tier']
     thorough = tier == 'thorough'
     n = 1500 if thorough else 200
+    tie = rc.model_ties(ctx, do_correspondence, tie_broken_sig)
     for name, H in sorted(ctx['H'].items()):
         K = rc.K_of(name)
         mh = 0 if K == 1 else ((K - 1) if K else None)
@@ -40,4 +44,4 @@ def run(ctx):
             jobs.append((tcfg, prog, 'phase3', 400, ctx['seed'], ()))
             jobs.append((tcfg, prog, 'pct', 2 * n, ctx['seed'], ('--depth', '3')))
         do_search(ctx, H, jobs, name, classify=lambda c, h, f, name=name: {'harness': name})
-    return None
+    return tie
